@@ -310,11 +310,12 @@ def decValue {α : Type} (dc : DataCoder α) (st : DecSt α) (p : Param) : R (PV
         else R.map (fun v => (v, none)) (readTyped ty (d * 8 - st.used))
     else R.map (fun v => (v, none)) (readTyped ty p.nbits)
 
-/-- `assert parameter.value == parameter.expected` (an AssertionError, not a library error) -/
+/-- `if parameter.value != parameter.expected: raise PyBufrKitError(...)` (the library error since the
+    fix of finding F9; it was an `assert`, i.e. an AssertionError, before) -/
 def checkExpected (p : Param) (v : PVal) : Except Err Unit :=
   match p.expected with
   | none => .ok ()
-  | some e => if v = .bytes e then .ok () else .error .other
+  | some e => if v = .bytes e then .ok () else .error .lib
 
 def decParams {α : Type} (dc : DataCoder α) (start : Nat) : List Param → Nat → DecSt α → R (DecSt α)
   | [], _, st => R.pure st
